@@ -162,6 +162,7 @@ const (
 var cancelNames = [...]string{"none", "before", "during", "after"}
 
 type roundCfg struct {
+	Nest          bool // Many calls issue further Invokes (other Func, same Func with other arguments) on the same batching context; shared-context rounds only
 	PerCaller     bool // callers use own contexts derived from the round's context
 	CancelCreator bool // when a Many call is entered, the own context of the caller whose argument comes first (the group's creator) is cancelled
 	Callers       []callerCfg
@@ -246,6 +247,7 @@ func genScenario(r *rand.Rand) scenario {
 		}
 		rc.PerCaller = r.Intn(2) == 0
 		rc.CancelCreator = rc.PerCaller && r.Intn(2) == 0
+		rc.Nest = !rc.PerCaller && r.Intn(2) == 0
 		var span time.Duration
 		for c := 0; c < nc; c++ {
 			fi := r.Intn(len(sc.Fns))
@@ -339,7 +341,7 @@ func (sc scenario) describe() map[string]interface{} {
 			}
 			cs = append(cs, fmt.Sprintf("c%d(fn%d,s%d,+%v,x%d,acq:%v%s)", k, c.Fn, c.Shard, c.Delay, c.Reps, c.Acquire, cx))
 		}
-		rs = append(rs, fmt.Sprintf("round%d{cancel:%s@%v perCallerContexts:%v cancelCreatorWhenManyEntered:%v callers:%s}", i, cancelNames[rc.Cancel], rc.CancelAt, rc.PerCaller, rc.CancelCreator, strings.Join(cs, " ")))
+		rs = append(rs, fmt.Sprintf("round%d{cancel:%s@%v perCallerContexts:%v cancelCreatorWhenManyEntered:%v manyIssuesNestedInvokes:%v callers:%s}", i, cancelNames[rc.Cancel], rc.CancelAt, rc.PerCaller, rc.CancelCreator, rc.Nest, strings.Join(cs, " ")))
 	}
 	return map[string]interface{}{"funcs": fns, "limiter": sc.Limit, "limiter_first": sc.LimiterFirst, "rounds": rs, "yield_intensity": sc.Intensity}
 }
@@ -350,10 +352,11 @@ func (sc scenario) describe() map[string]interface{} {
 type arg struct {
 	Round, Caller, Seq int
 	Fn, Shard          int
+	Nest               int // 1: the Invoke was issued from inside a Many call (Caller = 1000 + id of that call)
 }
 
 func want(a arg) string {
-	return fmt.Sprintf("res:r%d/c%d/q%d/f%d/s%d", a.Round, a.Caller, a.Seq, a.Fn, a.Shard)
+	return fmt.Sprintf("res:r%d/c%d/q%d/f%d/s%d/n%d", a.Round, a.Caller, a.Seq, a.Fn, a.Shard, a.Nest)
 }
 
 // invRec is one Invoke; written by the calling goroutine, read after `done`.
@@ -442,6 +445,55 @@ type mon struct {
 	mu     sync.Mutex
 	manys  []*manyRec
 	onMany func(*manyRec) // called (outside mu) when a Many call has been logged; set per round
+	nest   bool           // Many calls of the current round issue nested Invokes
+	fns    []*fnState
+	nested []*invRec // Invokes issued from inside Many calls (appended under mu)
+}
+
+// invokeLogged is one monitored Invoke: logged before the call and after the
+// return, a panic escaping Invoke is recorded instead of propagated.
+func (m *mon) invokeLogged(ctx context.Context, f *batch.Func, rec *invRec) {
+	rec.callSeq = m.tick()
+	func() {
+		defer func() {
+			if p := recover(); p != nil {
+				rec.panicked = p
+			}
+		}()
+		rec.res, rec.err = f.Invoke(ctx, rec.Arg)
+	}()
+	rec.retSeq = m.tick()
+	atomic.StoreInt32(&rec.done, 1)
+}
+
+// nestedInvokes is what a dependent batch resolver does: from inside Many it
+// invokes another Func, and the same Func with another argument, on the same
+// batching context (sequentially, or from goroutines Many waits for).
+func (m *mon) nestedInvokes(ctx context.Context, mr *manyRec, first arg) {
+	var recs []*invRec
+	if nf := len(m.fns); nf > 1 {
+		t := (mr.Fn + 1) % nf
+		recs = append(recs, &invRec{Arg: arg{Round: first.Round, Caller: 1000 + mr.ID, Seq: 0, Fn: t, Shard: mr.ID % m.fns[t].cfg.Shards, Nest: 1}})
+	}
+	recs = append(recs, &invRec{Arg: arg{Round: first.Round, Caller: 1000 + mr.ID, Seq: 1, Fn: mr.Fn, Shard: (first.Shard + mr.ID) % m.fns[mr.Fn].cfg.Shards, Nest: 1}})
+	m.mu.Lock()
+	m.nested = append(m.nested, recs...)
+	m.mu.Unlock()
+	if mr.ID%4 == 0 {
+		var wg sync.WaitGroup
+		for _, rec := range recs {
+			wg.Add(1)
+			go func(rec *invRec) {
+				defer wg.Done()
+				m.invokeLogged(ctx, m.fns[rec.Arg.Fn].f, rec)
+			}(rec)
+		}
+		wg.Wait()
+		return
+	}
+	for _, rec := range recs {
+		m.invokeLogged(ctx, m.fns[rec.Arg.Fn].f, rec)
+	}
 }
 
 // ownCtx is the cancellable context of one caller.
@@ -488,9 +540,15 @@ func (m *mon) makeFunc(idx int, cfg fnCfg) *fnState {
 		rec.startSeq = m.tick()
 		m.manys = append(m.manys, rec)
 		hook := m.onMany
+		nest := m.nest
 		m.mu.Unlock()
 		if hook != nil {
 			hook(rec)
+		}
+		if nest && rec.ID%2 == 0 {
+			if x, ok := args[0].(arg); ok && x.Nest == 0 {
+				m.nestedInvokes(ctx, rec, x)
+			}
 		}
 		finish := func() {
 			for i := range args {
@@ -584,6 +642,7 @@ func runScenario(run *vlib.Run, i int, agg *vlib.HitAgg) {
 	for k, c := range sc.Fns {
 		fns[k] = m.makeFunc(k, c)
 	}
+	m.fns = fns
 	activity := func() int64 { return atomic.LoadInt64(&m.seq) + y.Events() }
 
 	var rounds []*roundLog
@@ -622,6 +681,7 @@ func runScenario(run *vlib.Run, i int, agg *vlib.HitAgg) {
 		}
 		m.mu.Lock()
 		m.onMany = nil
+		m.nest = rc.Nest
 		if rc.CancelCreator {
 			round := ri
 			m.onMany = func(rec *manyRec) {
@@ -714,6 +774,10 @@ func runScenario(run *vlib.Run, i int, agg *vlib.HitAgg) {
 			return
 		}
 		rl.cancelSeq = atomic.LoadInt64(&cancelSeq)
+		m.mu.Lock()
+		rl.invs = append(rl.invs, m.nested...)
+		m.nested = nil
+		m.mu.Unlock()
 		for _, o := range rl.owns {
 			o.cancel() // clean-up only: not recorded as a cancellation
 		}
@@ -937,6 +1001,9 @@ func oracle(sc scenario, rounds []*roundLog, manys []*manyRec) (string, bool, ma
 				}
 			}
 			id := fmt.Sprintf("%+v", a)
+			if a.Nest == 1 {
+				feats["invoke:issued_from_inside_many"]++
+			}
 			if rec.panicked != nil {
 				bad("Invoke panicked instead of returning", "arg", id, "panic", fmt.Sprint(rec.panicked))
 				continue
@@ -1037,6 +1104,10 @@ func oracle(sc scenario, rounds []*roundLog, manys []*manyRec) (string, bool, ma
 			pc = "p"
 			feats["round:per_caller_contexts"]++
 		}
+		if rc.Nest {
+			pc = "n"
+			feats["round:many_issues_nested_invokes"]++
+		}
 		if rc.CancelCreator {
 			pc = "P"
 			feats["round:creator_cancelled_when_many_entered"]++
@@ -1063,7 +1134,7 @@ func TestCheck(t *testing.T) {
 	defer run.Finish()
 	run.Rule("seeded scenarios on the real batch.Func: 1..3 Funcs on one batching context (MaxSize in {0,1,2,3,7}, WaitInterval 0.2-2 ms, MaxDuration 1-5 ms, one Func in six with options at representational boundaries (MaxSize in {1, 2, callers-1, callers, callers+1, 1<<20, MaxInt32, MaxInt}; WaitInterval / MaxDuration in {0 = default, 1ns, the largest Duration}, never both very long), 1..4 shards, Shard func nil or set, shard values either ints or values of different dynamic types / distinct pointers with the same %v rendering (orgID(b), deviceID(b), int b, string b, int64(b), two &shardPoint{b}, uint8(b)), per-call Many outcome from {ok, error, error+results, panic (with a value that is a string, error, custom error type, int, struct, pointer, Stringer, slice, func, nil, or raised by the runtime: nil map write, index out of range, nil dereference), short, long, slow, slow-until-cancel}), " +
 		"1..3 back-to-back rounds of 1..64 callers (1..3 sequential Invokes each) started in bursts placed at 0, 0.5/0.9/1/1.1/2 x WaitInterval and 0.9/1/1.1 x MaxDuration, round context cancelled never / before / during / after, " +
-		"with or without concurrencylimiter.With(ctx,1..3) and an Acquire around every Invoke, random yields at the batch.* and limiter.* hooks. In half of the rounds all callers share the round's cancellable context; in the other half callers use own contexts derived from it (live, cancelled at a seeded time, or - in half of those rounds - cancelled by the harness at the moment a Many call whose first argument is theirs, i.e. whose group they created, is entered, with Many outcomes biased to slow-until-cancel). " +
+		"with or without concurrencylimiter.With(ctx,1..3) and an Acquire around every Invoke, in half of the shared-context rounds every second Many call itself invokes another Func and the same Func with another argument on the same batching context (sequentially or from goroutines it waits for; these nested Invokes are monitored like all others), random yields at the batch.* and limiter.* hooks. In half of the rounds all callers share the round's cancellable context; in the other half callers use own contexts derived from it (live, cancelled at a seeded time, or - in half of those rounds - cancelled by the harness at the moment a Many call whose first argument is theirs, i.e. whose group they created, is entered, with Many outcomes biased to slow-until-cancel). " +
 		"Non-trivial = the log shows a MaxSize roll-over (a full batch followed by another batch of the same Func/shard in the round), a late joiner (Invoke called after a Many call of its Func/shard had started, and dispatched in a later call) or a cancellation while Invokes were outstanding; " +
 		"distinct = limiter size, per-Func (MaxSize, shards), per-round (callers, cancel mode), number of undispatched arguments and the multiset of Many calls (Func, batch size, outcome).")
 	run.Assume("shards are compared by Go equality (==) of the values the harness's Shard function returned for the arguments, never by a printed form")
